@@ -3,16 +3,19 @@
 oracle:      the property itself, on the implementation: generated projects rich in shared sub-recipes, edit
              histories (recipes, classes, included files, default.yaml, -c files, optional includes, -D, --sandbox);
              after every edit the full package tree dump is computed
-               W  warm     - persistent project directory with every on-disk cache of the history, normal Bob
-               C  cold     - fresh copy without any cache file, fresh process, normal Bob (in-memory memo active)
-               U  uncached - fresh copy, fresh process, every memo of Recipe.prepare disabled from the outside
-             and W == C == U is required (errors compared by kind).
+               W   warm      - persistent project directory with every on-disk cache of the history, normal Bob
+               C   cold      - fresh copy without any cache file, fresh process, normal Bob (in-memory memo active)
+               U1  no lookup - fresh copy, fresh process, PackageMatcher.matches disabled from the outside
+               U2  no memo   - additionally Recipe.__corePackagesById never deduplicates
+             W == C (on-disk caches), C == U1 including internal ids (memo by touched keys), U1 == U2 up to ids
+             (deduplication by result id; its known observables are classified by signature). Errors by kind.
 correspond:  (i)  random op sequences on real `stringparser.Env` objects vs the TrackedEnv model (values, touched
                   stacks, sharing by identity);
-             (ii) real PackageMatcher (init / matches / touch, front-to-back search) vs the model matcher;
+             (ii) real PackageMatcher (init / matches / touch, front-to-back search) following the protocol of
+                  Recipe.prepare on real Env objects vs the model matcher over TEnv;
              (iii) real YamlCache sessions (controlled stat) vs the model cache, digest of the loaded files;
-             (iv) the package cache key of real generated projects vs the model's key over (BOB_INPUT_HASH, loaded files,
-                  root environment, sandbox flag), bit exact.
+             (iv) the package cache key of the real generated projects vs the model's key over (BOB_INPUT_HASH, loaded
+                  files, root environment, sandbox flag), bit exact.
 """
 import hashlib
 import json
@@ -26,9 +29,9 @@ import time
 DRIVER = "drv_c04"
 RULE = ("oracle: projects = layered DAG of tool providers, sandbox providers, leaves, middle recipes and roots (gen/c04_projects.py); "
         "the roots reach the same recipes under environments/tools/sandboxes that differ in exactly one key; histories of "
-        "random edits over 20 kinds; a case is one (project state, invocation) triple W/C/U comparison, distinct by the hash of "
-        "its files + invocation, non-trivial if the uncached run computed some recipe more often than the memoised one (a memo "
-        "hit happened) or an on-disk cache was reused. correspondence: op sequences on Env pools (2-5 envs, 12-40 ops), "
+        "random edits over 20 kinds; a case is one (project state, invocation) with its W/C/U1(/U2) comparison, distinct by the hash "
+        "of its files + invocation, non-trivial if the run without memo lookup computed some recipe more often than the memoised "
+        "one (a memo hit happened) or the state follows an edit (an on-disk cache was in play). correspondence: op sequences on Env pools (2-5 envs, 12-40 ops), "
         "matcher cases over 6 variables x 3 tools, YAML cache sessions over 4 files with colliding and changing stats, cache "
         "keys of the generated projects; distinct by content.")
 ASSUMPTIONS = [
@@ -36,6 +39,8 @@ ASSUMPTIONS = [
     "collision freedom of SHA-1 on the hashed inputs that occur (theorem hypothesis NoCollision)",
     "Recipe.prepare reads its input environment/tools only through tracked accessors: NOT proved, guarded by the source-shape "
     "check in tools/consts/c04.py (allow-list of untracked accesses) and by the W/C/U oracle",
+    "theorem hypothesis `Function.Injective rid` (the result id identifies the core package) is NOT met by the implementation for "
+    "meta environment, fingerprint mask, weak variables and dependencies of script-less steps: known findings F-C04-2..",
     "plugin states' __eq__ / copy, layers, the Jenkins and project generators' own caches are outside the model",
     "the package graph depends only on BOB_INPUT_HASH, the loaded files, the root environment and the sandbox flag "
     "(persisted_transparent's hkey); other process inputs (platform, whitelist) are fixed in the harness",
@@ -204,37 +209,73 @@ def weak_vars(p):
     return out
 
 
-def categorize(diffs, p, dump):
-    """split the differences between the memoised and the uncached tree by what they concern"""
+def pkg_of(path, dump):
+    """longest package (stack path) that owns a diff path /packages/<stack path>/<field...>; returns (package, field path)"""
+    if not path.startswith("/packages/"):
+        return None, path
+    parts = path[len("/packages/"):].split("/")
+    pk = dump.get("packages", {})
+    for n in range(len(parts), -1, -1):
+        cand = "/".join(parts[:n])
+        if cand in pk:
+            return cand, "/".join(parts[n:])
+    return None, path
+
+
+STRUCT_FIELDS = ("direct", "indirect", "all", "build/args", "build/allDeps", "build/vid", "dist/args", "dist/allDeps",
+                 "checkout/args", "checkout/allDeps", "build/provDeps", "dist/provDeps")
+
+
+def categorize(diffs, p, da, db):
+    """split the differences between two tree dumps (da: dedup by result id active, db: disabled) by observable"""
     weak = weak_vars(p)
+    both = {"packages": dict(da.get("packages", {}))}
+    both["packages"].update(db.get("packages", {}))
+    scriptless = set(k for d in (da, db) for k, v in d.get("packages", {}).items() if not v["build"]["valid"])
+    # dependencies that only one side has, below a package with a script-less build step
+    surplus = set()
+    for q in scriptless:
+        if q in da.get("packages", {}) and q in db.get("packages", {}):
+            for f in ("direct", "indirect"):
+                na = set(x[0] for x in da["packages"][q][f])
+                nb = set(x[0] for x in db["packages"][q][f])
+                surplus |= na ^ nb
     cats = {}
     for d in diffs:
         path = d[0]
-        parts = path.split("/")
         cat = "other"
-        if path == "" or parts[1:2] == ["error"]:
+        pkg, field = pkg_of(path, both)
+        if path == "" or path.startswith("/error"):
             cat = "error"
-        elif "/meta/" in path or path.endswith("/meta"):
+        elif path.startswith("/queries/"):
+            la, lb = (d[1], d[2]) if isinstance(d[1], list) and isinstance(d[2], list) else ([], [None])
+            extra = set(la) ^ set(lb)
+            if extra and all(any(x == s or x.startswith(s + "/") for s in surplus) for x in extra):
+                cat = "scriptless-deps"
+        elif pkg is not None and any(pkg == s or pkg.startswith(s + "/") for s in surplus) and \
+                (pkg not in da.get("packages", {}) or pkg not in db.get("packages", {})):
+            cat = "scriptless-deps"              # a package that hangs on a surplus dependency
+        elif pkg is not None and field.split("/")[0] == "meta":
             cat = "meta"
-        elif parts[-1] == "fp":
+        elif pkg is not None and field.endswith("/fp"):
             cat = "fingerprint"
-        elif parts[-1] == "allTools" or parts[-2:-1] == ["allTools"] or "/allTools" in path:
-            cat = "alltools"
-        elif len(parts) >= 3 and parts[-2] == "env" and parts[1] == "packages":
-            # /packages/<stack path...>/<step>/env/<VAR>
-            pkg = "/".join(parts[2:-3])
-            rec = dump.get("packages", {}).get(pkg, {}).get("recipe")
-            if parts[-1] in weak.get(rec, ()):
-                cat = "weak-env"
+        elif pkg is not None and "/env/" in "/" + field and field.split("/")[-1] in weak.get(both["packages"][pkg].get("recipe"), ()):
+            cat = "weak-env"
+        elif pkg in scriptless and any(field == f or field.startswith(f + "/") or field.startswith(f + "[") for f in STRUCT_FIELDS):
+            cat = "scriptless-deps"
         cats.setdefault(cat, []).append(d)
     return cats
 
 
-MEMO_SIGNATURES = {
+DEDUP_SIGNATURES = {
     "meta": ("dedup-by-resultid-merges-metaenv",
              "Recipe.__corePackagesById.setdefault(resultId, p) reuses a package of the same result id whose metaEnvironment differs"),
     "fingerprint": ("dedup-by-resultid-merges-fingerprint-mask",
                     "a package of the same result id but with a different fingerprintIf outcome is reused"),
+    "weak-env": ("dedup-by-resultid-merges-weak-env",
+                 "a package of the same result id but with a different value of a weakly consumed variable is reused"),
+    "scriptless-deps": ("dedup-by-resultid-merges-scriptless-deps",
+                        "a package of the same result id is reused although a dependency that feeds only a script-less step differs"),
 }
 
 
@@ -243,44 +284,38 @@ def recipes_of(files):
     return {"recipes": {os.path.basename(n)[:-5]: yaml.safe_load(t) for n, t in files.items() if n.startswith("recipes/")}}
 
 
-def memo_check(bob, base, files, inv, c, u, case):
-    """C (memoised) vs U (no memo): returns violations [{what, case, signature}]"""
-    import yaml
-    vc, vu = view(c, False), view(u, False)
+def memo_check(c, u1, case):
+    """C (normal) vs U1 (memo lookup disabled): must be identical, internal ids included"""
+    vc, vu = view(c), view(u1)
     if vc == vu:
         return []
-    p = recipes_of(files)
-    diffs = all_diffs(vc, vu)
-    cats = categorize(diffs, p, vu if "packages" in vu else vc)
-    cats.pop("weak-env", None)
-    out = []
+    d = first_diff(vc, vu)
     note = " [%s]" % c["error"][1] if "error" in c else ""
-    rest = []
+    return [{"what": "package tree with the memo of Recipe.prepare differs from the tree computed with the memo lookup disabled at "
+                     "%s: memoised %s, uncached %s%s" % (d[0] or "/", short(d[1]), short(d[2]), note),
+             "case": dict(case, check="memo", category="other"), "signature": "memo-vs-uncached-differs"}]
+
+
+def dedup_check(files, u1, u2, case):
+    """U1 (dedup by result id active) vs U2 (disabled): known observables are classified, the rest is fresh"""
+    va, vb = view(u1, False), view(u2, False)
+    if va == vb:
+        return []
+    if "error" in va or "error" in vb:
+        cats = {"error": [("/error", va.get("error"), vb.get("error"))]}
+    else:
+        cats = categorize(all_diffs(va, vb), recipes_of(files), va, vb)
+    out = []
     for cat, ds in sorted(cats.items()):
-        if cat in MEMO_SIGNATURES:
-            sig, why = MEMO_SIGNATURES[cat]
-            d = ds[0]
-            out.append({"what": "%s: at %s memoised %s, uncached %s" % (why, d[0], short(d[1]), short(d[2])),
-                        "case": dict(case, check="memo", category=cat), "signature": sig})
+        d = ds[0]
+        if cat in DEDUP_SIGNATURES:
+            sig, why = DEDUP_SIGNATURES[cat]
+            out.append({"what": "%s: at %s with dedup %s, without %s" % (why, d[0], short(d[1]), short(d[2])),
+                        "case": dict(case, check="dedup", category=cat), "signature": sig})
         else:
-            rest.extend(ds)
-    if rest:
-        sig = "memo-vs-uncached-differs"
-        if has_inherit_false(p):
-            q = strip_inherit_false(p)
-            files2 = dict(files)
-            for n, rec in q["recipes"].items():
-                files2["recipes/%s.yaml" % n] = yaml.safe_dump(rec)
-            c2 = fresh_query(bob, base, "cls-c", files2, inv, "normal")
-            u2 = fresh_query(bob, base, "cls-u", files2, inv, "nomemo")
-            d2 = all_diffs(view(c2, False), view(u2, False))
-            c2cats = categorize(d2, q, view(u2, False) if "dump" in u2 else {})
-            if not any(k not in ("weak-env", "meta", "fingerprint") for k in c2cats):
-                sig = "memo-reuse-inherit-false-difftools"
-        d = rest[0]
-        out.append({"what": "package tree with the in-memory memo differs from the tree computed without any memo at %s: "
-                            "memoised %s, uncached %s%s" % (d[0] or "/", short(d[1]), short(d[2]), note),
-                    "case": dict(case, check="memo", category="other"), "signature": sig})
+            out.append({"what": "package tree with the deduplication by result id differs from the tree without it at %s: with %s, "
+                                "without %s" % (d[0] or "/", short(d[1]), short(d[2])),
+                        "case": dict(case, check="dedup", category=cat), "signature": "dedup-by-resultid-merges-other"})
     return out
 
 
@@ -288,7 +323,8 @@ def run_history(args):
     """worker: one project, one edit history; returns counters and violations"""
     repo, tmp, key, n_edits, opts = args
     deadline = opts.get("deadline")
-    if deadline and time.time() > deadline:
+    min_steps = opts.get("min_steps", 0)         # work that is done even when the machine is overloaded
+    if deadline and time.time() > deadline and not min_steps:
         return {"cases": [], "violations": [], "hist": {}, "skipped": ["time budget: history not started"]}
     sys.path.insert(0, os.path.dirname(HERE))
     from gen import c04_projects as G
@@ -310,7 +346,7 @@ def run_history(args):
         files, clock = {}, G.Clock()
         kinds = []
         for step in range(n_edits + 1):
-            if deadline and time.time() > deadline:
+            if deadline and time.time() > deadline and step >= min_steps:
                 out["skipped"].append("time budget: history cut short")
                 break
             if step:
@@ -322,16 +358,18 @@ def run_history(args):
             G.sync_dir(wdir, new_files, files, clock, r)
             files = new_files
             w = bob.query(dict(inv, dir=wdir, mode="normal"))
-            w2 = bob.query(dict(inv, dir=wdir, mode="normal")) if r.random() < 0.35 else None
+            w2 = bob.query(dict(inv, dir=wdir, mode="normal")) if r.random() < 0.3 else None
             c = fresh_query(bob, base, "c", files, inv, "normal")
-            u = fresh_query(bob, base, "u", files, inv, "nomemo")
-            if any(rep.get("error", [""])[0] == "helper-failure" for rep in (w, c, u)):
+            u1 = fresh_query(bob, base, "u1", files, inv, "nomatch")
+            # the dedup-by-result-id comparison (known findings live there) is made on every third state only
+            u = fresh_query(bob, base, "u", files, inv, "nomemo") if step % 3 == 0 else u1
+            if any(rep.get("error", [""])[0] == "helper-failure" for rep in (w, c, u1, u)):
                 out["skipped"].append("helper failure")
                 continue
             vw, vc, vu = view(w), view(c), view(u, False)
             hits = 0
-            if "memo" in c and "memo" in u:
-                hits = sum(u["memo"].values()) - sum(c["memo"].values())
+            if "memo" in c and "memo" in u1:
+                hits = sum(u1["memo"].values()) - sum(c["memo"].values())
             count("edit_kind", kind)
             count("outcome", "error:" + vu["error"] if "error" in vu else "tree")
             if "packages" in vu:
@@ -341,9 +379,11 @@ def run_history(args):
                                  "sample": {"edit": kind, "inv": inv, "packages": len(vu.get("packages", [])),
                                             "memo_hits": hits, "outcome": "error" if "error" in vu else "ok"}})
             case = {"kind": "history", "key": key, "n_edits": n_edits,
-                    "opts": {k: v for k, v in opts.items() if k != "deadline"}, "step": step, "edits": list(kinds),
+                    "opts": {k: v for k, v in opts.items() if k not in ("deadline", "min_steps")}, "step": step, "edits": list(kinds),
                     "files": files, "inv": inv}
-            out["violations"].extend(memo_check(bob, base, files, inv, c, u, case))
+            out["violations"].extend(memo_check(c, u1, case))
+            if u is not u1:
+                out["violations"].extend(dedup_check(files, u1, u, case))
             if vw != vc:
                 d = first_diff(vw, vc)
                 out["violations"].append({
@@ -389,14 +429,29 @@ def oracle(ctx):
     # leave room for the correspondence runs
     deadline = time.time() + max(20.0, ctx.time_left() - ctx.scale(50, 240))
     opts = {"inherit_false": 0.06, "deadline": deadline}
-    todo = [(ctx.repo, ctx.tmp, "%s-%d-hist-%d" % (ctx.prop, ctx.seed, i), n_edits, opts) for i in range(n_hist)]
     workers = min(16, os.cpu_count() or 4)
+    # the first wave of histories always reaches its 4th state, however slow the machine is
+    todo = [(ctx.repo, ctx.tmp, "%s-%d-hist-%d" % (ctx.prop, ctx.seed, i), n_edits,
+             dict(opts, min_steps=4 if i < workers else 0)) for i in range(n_hist)]
+    t = time.time()
     for res in ctx.parallel(run_history, todo, workers=workers):
         merge(ctx, res)
         _KEYS.extend(k for k in res.get("keys", []) if k)
+    ctx.notes["t_oracle"] = round(time.time() - t, 1)
 
 
 # ---------------------------------------------------------------------------------- correspondence
+
+def sized(ctx, quick, thorough):
+    """case count, reduced when the machine is so loaded that the budget is nearly used up"""
+    n = ctx.scale(quick, thorough)
+    left = ctx.time_left()
+    if left < ctx.scale(15, 120):
+        n = max(20, n // 6)
+    elif left < ctx.scale(40, 300):
+        n = max(20, n // 2)
+    return n
+
 
 KEYS = ["A", "B", "C", "D", "E", "F"]
 VALS = ["", "1", "x", "y z"]
@@ -545,7 +600,7 @@ def model_req(op):
 def corr_env(ctx):
     r = ctx.subrng("corr-env")
     reqs, want, cases = [], [], []
-    for i in range(ctx.scale(1200, 30000)):
+    for i in range(sized(ctx, 1200, 30000)):
         ops = gen_env_ops(r, r.randrange(12, 40))
         pool = EnvPool()
         reqs.append({"op": "reset"}); want.append(None)
@@ -617,7 +672,7 @@ def corr_matcher(ctx):
         return [env, tools, r.choice([None, None, "s1", "s2"]), {"S": r.choice([0, 0, 1])} if r.random() < 0.7 else {},
                 r.choice([None, None, None, "alias"])]
 
-    for i in range(ctx.scale(600, 25000)):
+    for i in range(sized(ctx, 600, 25000)):
         mi = Mirror()
         table, mtable = [], []          # real matchers / model matcher ids, front first
         base = rand_input()
@@ -732,7 +787,7 @@ def corr_yaml(ctx):
     I.binStat = fake
     try:
         os.makedirs("sub", exist_ok=True)
-        for case in range(ctx.scale(100, 4000)):
+        for case in range(sized(ctx, 100, 4000)):
             if os.path.exists(".bob-cache.sqlite3"):
                 os.unlink(".bob-cache.sqlite3")
             for n in names:
@@ -854,10 +909,12 @@ def corr_key(ctx):
 
 
 def correspond(ctx):
-    corr_env(ctx)
-    corr_matcher(ctx)
-    corr_yaml(ctx)
+    t = time.time()
     corr_key(ctx)
+    for name, fn in (("env", corr_env), ("matcher", corr_matcher), ("yaml", corr_yaml)):
+        fn(ctx)
+        ctx.notes["t_corr_" + name] = round(time.time() - t, 1)
+        t = time.time()
 
 
 def replay(ctx, case):
@@ -865,18 +922,20 @@ def replay(ctx, case):
     from gen import c04_projects as G
     base = os.path.join(ctx.tmp, "replay")
     os.makedirs(os.path.join(base, "home"), exist_ok=True)
-    if case.get("check") == "memo":
+    if case.get("check") in ("memo", "dedup"):
         bob = BobServer(ctx.repo, base)
         try:
             c = fresh_query(bob, base, "c", case["files"], case["inv"], "normal")
-            u = fresh_query(bob, base, "u", case["files"], case["inv"], "nomemo")
-            for v in memo_check(bob, base, case["files"], case["inv"], c, u, case):
-                if v["case"].get("category") == case.get("category"):
-                    ctx.violation(v["what"], case, v["signature"])
+            u1 = fresh_query(bob, base, "u1", case["files"], case["inv"], "nomatch")
+            u2 = fresh_query(bob, base, "u", case["files"], case["inv"], "nomemo")
         finally:
             bob.close()
+        vs = memo_check(c, u1, case) if case["check"] == "memo" else dedup_check(case["files"], u1, u2, case)
+        for v in vs:
+            if v["case"].get("category") == case.get("category"):
+                ctx.violation(v["what"], case, v["signature"])
     else:
-        opts = {k: v for k, v in case["opts"].items() if k != "deadline"}
+        opts = {k: v for k, v in case["opts"].items() if k not in ("deadline", "min_steps")}
         res = run_history((ctx.repo, ctx.tmp, case["key"], case["n_edits"], opts))
         for v in res["violations"]:
             if v["case"]["step"] == case["step"] and v["case"]["check"] == case["check"]:
